@@ -111,5 +111,14 @@ func check(id string, args []string) (code int) {
 	for k, v := range c.Extra {
 		out.Extra[k] = v
 	}
+	if tier == "thorough" && os.Getenv("VERIF_NO_CORPUS") == "" && os.Getenv("VERIF_REPO") == "" {
+		if cr := corpusSelfTest(id); cr != nil {
+			out.Extra["corpus_self_test"] = cr
+			for _, f := range cr.FalseAlarms {
+				out.Canary = append(out.Canary, "benign edit reported (checker defect, not a defect of /repo): "+f)
+			}
+			defer printCorpus(id, cr)
+		}
+	}
 	return out.Emit(noEv)
 }
